@@ -179,8 +179,15 @@ def exact_xor_bits(n: int, v: Dict[str, int], c: Dict[str, int], w: int) -> R:
     return {f'd{i}': v[f'd{i}'] ^ ((v['src'] >> i) & 1) for i in range(4)}, None
 
 
-def S(macro: str, operands: List[O], model: Any, doc: str, **kw: Any) -> Spec:
+def S(macro: str, operands: List[O], model: Any, doc: str, requires: str = '', **kw: Any) -> Spec:
+    """requires = the tables the macro's documentation says it needs (`@requires hex.<table>.init`).  A macro documented
+    without any `@requires` is table-free: it gets the carry / multiplier states as role-'k' (kept) operands, i.e. it must
+    compute its formula and leave those states untouched even when they are nonzero.  A table-using macro promises nothing
+    while any of them is dirty, except for the states its own formula names."""
     kw.setdefault('n_values', (1, 2, 3, 4, 6))
+    if not requires:
+        operands = operands + [hid('kept_add_carry', 'k', 1, 'add_carry'), hid('kept_sub_carry', 'k', 1, 'sub_carry'),
+                               hid('kept_mul_dst', 'k', 4, 'mul_dst'), hid('kept_mul_carry', 'k', 4, 'mul_carry')]
     return Spec(macro, operands, model, f'hex/{doc}', needs='hex', widths=(32, 64), **kw)
 
 
@@ -197,8 +204,8 @@ LT_EQ_GT = [O('lt', 'label'), O('eq', 'label'), O('gt', 'label')]
 
 SPECS: List[Spec] = [
     # ---------------------------------------------------------------- hex/memory.fj
-    S('hex.zero', [O('hex', 'hex', 'w', '1')], lambda n, v, c, w: up(hex=0), 'memory.fj:36', **SCALAR),
-    S('hex.zero', [N(), O('x', 'hex', 'w')], lambda n, v, c, w: up(x=0), 'memory.fj:43'),
+    S('hex.zero', [O('hex', 'hex', 'rw', '1')], lambda n, v, c, w: up(hex=0), 'memory.fj:36', **SCALAR),
+    S('hex.zero', [N(), O('x', 'hex', 'rw')], lambda n, v, c, w: up(x=0), 'memory.fj:43'),
     S('hex.mov', [O('dst', 'hex', 'w', '1'), O('src', 'hex', 'r', '1')], lambda n, v, c, w: up(dst=v['src']), 'memory.fj:50', **SCALAR),
     # "Unsafe if dst and src overlap! but safe if they are the exact same address."
     S('hex.mov', [N(), O('dst', 'hex', 'w'), O('src', 'hex', 'r')], lambda n, v, c, w: up(dst=v['src']), 'memory.fj:63',
@@ -207,8 +214,8 @@ SPECS: List[Spec] = [
       'memory.fj:72', **SCALAR),
     S('hex.xor_by', [N(), O('hex', 'hex', 'rw'), O('val', 'const', values=vec_const)],
       lambda n, v, c, w: up(hex=(v['hex'] ^ c['val']) & H(n)), 'memory.fj:78'),
-    S('hex.set', [O('hex', 'hex', 'w', '1'), O('val', 'const', values=digit)], lambda n, v, c, w: up(hex=c['val']), 'memory.fj:85', **SCALAR),
-    S('hex.set', [N(), O('hex', 'hex', 'w'), O('val', 'const', values=vec_const)], lambda n, v, c, w: up(hex=c['val'] & H(n)),
+    S('hex.set', [O('hex', 'hex', 'rw', '1'), O('val', 'const', values=digit)], lambda n, v, c, w: up(hex=c['val']), 'memory.fj:85', **SCALAR),
+    S('hex.set', [N(), O('hex', 'hex', 'rw'), O('val', 'const', values=vec_const)], lambda n, v, c, w: up(hex=c['val'] & H(n)),
       'memory.fj:93'),
     S('hex.swap', [O('hex1', 'hex', 'rw', '1'), O('hex2', 'hex', 'rw', '1')], lambda n, v, c, w: up(hex1=v['hex2'], hex2=v['hex1']),
       'memory.fj:100', **SCALAR),
@@ -243,12 +250,12 @@ SPECS: List[Spec] = [
       lambda n, v, c, w: up(r=v['r'] ^ v['src'], q=v['q'] ^ v['src'], t=v['t'] ^ v['src'], d=v['d'] ^ v['src']), 'logics.fj:160', **SCALAR),
     S('hex.not', [O('hex', 'hex', 'rw', '1')], lambda n, v, c, w: up(hex=15 - v['hex']), 'logics.fj:247', **SCALAR),
     S('hex.not', [N(), O('x', 'hex', 'rw')], lambda n, v, c, w: up(x=v['x'] ^ H(n)), 'logics.fj:256'),
-    S('hex.or', [O('dst', 'hex', 'rw', '1'), O('src', 'hex', 'r', '1')], lambda n, v, c, w: up(dst=v['dst'] | v['src']), 'logics.fj:264',
+    S('hex.or', [O('dst', 'hex', 'rw', '1'), O('src', 'hex', 'r', '1')], lambda n, v, c, w: up(dst=v['dst'] | v['src']), 'logics.fj:264', requires='or',
       **SCALAR),
-    S('hex.or', [N(), O('dst', 'hex', 'rw'), O('src', 'hex', 'r')], lambda n, v, c, w: up(dst=v['dst'] | v['src']), 'logics.fj:274'),
-    S('hex.and', [O('dst', 'hex', 'rw', '1'), O('src', 'hex', 'r', '1')], lambda n, v, c, w: up(dst=v['dst'] & v['src']), 'logics.fj:314',
+    S('hex.or', [N(), O('dst', 'hex', 'rw'), O('src', 'hex', 'r')], lambda n, v, c, w: up(dst=v['dst'] | v['src']), 'logics.fj:274', requires='or'),
+    S('hex.and', [O('dst', 'hex', 'rw', '1'), O('src', 'hex', 'r', '1')], lambda n, v, c, w: up(dst=v['dst'] & v['src']), 'logics.fj:314', requires='and',
       **SCALAR),
-    S('hex.and', [N(), O('dst', 'hex', 'rw'), O('src', 'hex', 'r')], lambda n, v, c, w: up(dst=v['dst'] & v['src']), 'logics.fj:324'),
+    S('hex.and', [N(), O('dst', 'hex', 'rw'), O('src', 'hex', 'r')], lambda n, v, c, w: up(dst=v['dst'] & v['src']), 'logics.fj:324', requires='and'),
     # ---------------------------------------------------------------- hex/math_basic.fj
     # "@Assumes: dst and src do not alias."
     S('hex.add_count_bits', [N(), O('dst', 'hex', 'rw'), O('src', 'hex', 'r', '1')],
@@ -269,44 +276,44 @@ SPECS: List[Spec] = [
     S('hex.sign_extend', [N(), O('signed_n', 'const', values=one_to_n), O('hex', 'hex', 'rw')], sign_extend, 'math_basic.fj:211'),
     # ---------------------------------------------------------------- hex/math.fj
     # "Relies on the add-carry, and updates it at the end."  (carry: math_basic.fj:92)
-    S('hex.add', [O('dst', 'hex', 'rw', '1'), O('src', 'hex', 'r', '1'), hid('carry', 'rw', 1, 'add_carry')], add_scalar, 'math.fj:7',
+    S('hex.add', [O('dst', 'hex', 'rw', '1'), O('src', 'hex', 'r', '1'), hid('carry', 'rw', 1, 'add_carry')], add_scalar, 'math.fj:7', requires='add',
       **SCALAR),
-    S('hex.add', [N(), O('dst', 'hex', 'rw'), O('src', 'hex', 'r')], lambda n, v, c, w: up(dst=(v['dst'] + v['src']) & H(n)), 'math.fj:18'),
+    S('hex.add', [N(), O('dst', 'hex', 'rw'), O('src', 'hex', 'r')], lambda n, v, c, w: up(dst=(v['dst'] + v['src']) & H(n)), 'math.fj:18', requires='add'),
     S('hex.add_shifted', [N(), O('src_n', 'const', values=src_n_le_n), O('dst', 'hex', 'rw'), O('src', 'hex', 'r', 'src_n'),
                           O('hex_shift', 'const', values=shift_fitting('src_n'))],
-      lambda n, v, c, w: up(dst=(v['dst'] + (v['src'] << (4 * c['hex_shift']))) & H(n)), 'math.fj:28'),
+      lambda n, v, c, w: up(dst=(v['dst'] + (v['src'] << (4 * c['hex_shift']))) & H(n)), 'math.fj:28', requires='add'),
     # "const must be a positive constant."
     S('hex.add_constant', [N(), O('dst', 'hex', 'rw'), O('const', 'const', values=positive_below_16n)],
-      lambda n, v, c, w: up(dst=(v['dst'] + c['const']) & H(n)), 'math.fj:41', pre=lambda n, c, w: 0 < c['const'] < 16 ** n),
+      lambda n, v, c, w: up(dst=(v['dst'] + c['const']) & H(n)), 'math.fj:41', requires='add', pre=lambda n, c, w: 0 < c['const'] < 16 ** n),
     # "const is a constant of size hex[:n_const]"
     S('hex.add.add_hex_shifted_constant',
       [N(), O('n_const', 'const', values=one_to_n), O('dst', 'hex', 'rw'), O('const', 'const', values=const_of_n_const),
        O('hex_shift', 'const', values=shift_fitting('n_const'))],
-      lambda n, v, c, w: up(dst=(v['dst'] + (c['const'] << (4 * c['hex_shift']))) & H(n)), 'math.fj:58',
+      lambda n, v, c, w: up(dst=(v['dst'] + (c['const'] << (4 * c['hex_shift']))) & H(n)), 'math.fj:58', requires='add',
       pre=lambda n, c, w: 0 <= c['const'] < 16 ** c['n_const']),
-    S('hex.add.clear_carry', [hid('carry', 'rw', 1, 'add_carry')], lambda n, v, c, w: up(carry=0), 'math.fj:73', **SCALAR),
+    S('hex.add.clear_carry', [hid('carry', 'rw', 1, 'add_carry')], lambda n, v, c, w: up(carry=0), 'math.fj:73', requires='add', **SCALAR),
     S('hex.add.clear_carry', [O('c0', 'label'), O('c1', 'label'), hid('carry', 'rw', 1, 'add_carry')],
-      lambda n, v, c, w: ({'carry': 0}, 'c0' if v['carry'] == 0 else 'c1'), 'math.fj:84', falls_through=False, **SCALAR),
-    S('hex.add.not_carry', [hid('carry', 'rw', 1, 'add_carry')], lambda n, v, c, w: up(carry=v['carry'] ^ 1), 'math.fj:96', **SCALAR),
-    S('hex.add.set_carry', [hid('carry', 'rw', 1, 'add_carry')], lambda n, v, c, w: up(carry=1), 'math.fj:104', **SCALAR),
-    S('hex.sub', [O('dst', 'hex', 'rw', '1'), O('src', 'hex', 'r', '1'), hid('carry', 'rw', 1, 'sub_carry')], sub_scalar, 'math.fj:153',
+      lambda n, v, c, w: ({'carry': 0}, 'c0' if v['carry'] == 0 else 'c1'), 'math.fj:84', requires='add', falls_through=False, **SCALAR),
+    S('hex.add.not_carry', [hid('carry', 'rw', 1, 'add_carry')], lambda n, v, c, w: up(carry=v['carry'] ^ 1), 'math.fj:96', requires='add', **SCALAR),
+    S('hex.add.set_carry', [hid('carry', 'rw', 1, 'add_carry')], lambda n, v, c, w: up(carry=1), 'math.fj:104', requires='add', **SCALAR),
+    S('hex.sub', [O('dst', 'hex', 'rw', '1'), O('src', 'hex', 'r', '1'), hid('carry', 'rw', 1, 'sub_carry')], sub_scalar, 'math.fj:153', requires='sub',
       **SCALAR),
-    S('hex.sub', [N(), O('dst', 'hex', 'rw'), O('src', 'hex', 'r')], lambda n, v, c, w: up(dst=(v['dst'] - v['src']) & H(n)), 'math.fj:163'),
+    S('hex.sub', [N(), O('dst', 'hex', 'rw'), O('src', 'hex', 'r')], lambda n, v, c, w: up(dst=(v['dst'] - v['src']) & H(n)), 'math.fj:163', requires='sub'),
     S('hex.sub_shifted', [N(), O('src_n', 'const', values=src_n_le_n), O('dst', 'hex', 'rw'), O('src', 'hex', 'r', 'src_n'),
                           O('hex_shift', 'const', values=shift_fitting('src_n'))],
-      lambda n, v, c, w: up(dst=(v['dst'] - (v['src'] << (4 * c['hex_shift']))) & H(n)), 'math.fj:173'),
+      lambda n, v, c, w: up(dst=(v['dst'] - (v['src'] << (4 * c['hex_shift']))) & H(n)), 'math.fj:173', requires='sub'),
     S('hex.sub_constant', [N(), O('dst', 'hex', 'rw'), O('const', 'const', values=positive_below_16n)],
-      lambda n, v, c, w: up(dst=(v['dst'] - c['const']) & H(n)), 'math.fj:186', pre=lambda n, c, w: 0 < c['const'] < 16 ** n),
+      lambda n, v, c, w: up(dst=(v['dst'] - c['const']) & H(n)), 'math.fj:186', requires='sub', pre=lambda n, c, w: 0 < c['const'] < 16 ** n),
     S('hex.sub.sub_hex_shifted_constant',
       [N(), O('n_const', 'const', values=one_to_n), O('dst', 'hex', 'rw'), O('const', 'const', values=const_of_n_const),
        O('hex_shift', 'const', values=shift_fitting('n_const'))],
-      lambda n, v, c, w: up(dst=(v['dst'] - (c['const'] << (4 * c['hex_shift']))) & H(n)), 'math.fj:201',
+      lambda n, v, c, w: up(dst=(v['dst'] - (c['const'] << (4 * c['hex_shift']))) & H(n)), 'math.fj:201', requires='sub',
       pre=lambda n, c, w: 0 <= c['const'] < 16 ** c['n_const']),
-    S('hex.sub.clear_carry', [hid('carry', 'rw', 1, 'sub_carry')], lambda n, v, c, w: up(carry=0), 'math.fj:216', **SCALAR),
+    S('hex.sub.clear_carry', [hid('carry', 'rw', 1, 'sub_carry')], lambda n, v, c, w: up(carry=0), 'math.fj:216', requires='sub', **SCALAR),
     S('hex.sub.clear_carry', [O('c0', 'label'), O('c1', 'label'), hid('carry', 'rw', 1, 'sub_carry')],
-      lambda n, v, c, w: ({'carry': 0}, 'c0' if v['carry'] == 0 else 'c1'), 'math.fj:225', falls_through=False, **SCALAR),
-    S('hex.sub.not_carry', [hid('carry', 'rw', 1, 'sub_carry')], lambda n, v, c, w: up(carry=v['carry'] ^ 1), 'math.fj:238', **SCALAR),
-    S('hex.sub.set_carry', [hid('carry', 'rw', 1, 'sub_carry')], lambda n, v, c, w: up(carry=1), 'math.fj:246', **SCALAR),
+      lambda n, v, c, w: ({'carry': 0}, 'c0' if v['carry'] == 0 else 'c1'), 'math.fj:225', requires='sub', falls_through=False, **SCALAR),
+    S('hex.sub.not_carry', [hid('carry', 'rw', 1, 'sub_carry')], lambda n, v, c, w: up(carry=v['carry'] ^ 1), 'math.fj:238', requires='sub', **SCALAR),
+    S('hex.sub.set_carry', [hid('carry', 'rw', 1, 'sub_carry')], lambda n, v, c, w: up(carry=1), 'math.fj:246', requires='sub', **SCALAR),
     # ---------------------------------------------------------------- hex/shifts.fj
     S('hex.shl_bit', [N(), O('dst', 'hex', 'rw')], lambda n, v, c, w: up(dst=(v['dst'] << 1) & H(n)), 'shifts.fj:7'),
     S('hex.shr_bit', [N(), O('dst', 'hex', 'rw')], lambda n, v, c, w: up(dst=v['dst'] >> 1), 'shifts.fj:16'),
@@ -336,32 +343,32 @@ SPECS: List[Spec] = [
     S('hex.sign', [N(), O('number', 'hex', 'r'), O('neg', 'label'), O('zpos', 'label')],
       lambda n, v, c, w: ({}, 'neg' if signed(v['number'], n) < 0 else 'zpos'), 'cond_jumps.fj:66', falls_through=False),
     S('hex.cmp', [O('a', 'hex', 'r', '1'), O('b', 'hex', 'r', '1')] + LT_EQ_GT, lambda n, v, c, w: ({}, cmp3(v['a'], v['b'])),
-      'cond_jumps.fj:74', falls_through=False, **SCALAR),
+      'cond_jumps.fj:74', requires='cmp', falls_through=False, **SCALAR),
     S('hex.cmp', [N(), O('a', 'hex', 'r'), O('b', 'hex', 'r')] + LT_EQ_GT, lambda n, v, c, w: ({}, cmp3(v['a'], v['b'])),
-      'cond_jumps.fj:113', falls_through=False),
+      'cond_jumps.fj:113', requires='cmp', falls_through=False),
     # "(unsigned)  @Assumes dst is distinct from a and b"
     S('hex.min', [N(), O('dst', 'hex', 'w'), O('a', 'hex', 'r'), O('b', 'hex', 'r')], lambda n, v, c, w: up(dst=min(v['a'], v['b'])),
-      'cond_jumps.fj:165'),
+      'cond_jumps.fj:165', requires='cmp'),
     S('hex.max', [N(), O('dst', 'hex', 'w'), O('a', 'hex', 'r'), O('b', 'hex', 'r')], lambda n, v, c, w: up(dst=max(v['a'], v['b'])),
-      'cond_jumps.fj:181'),
+      'cond_jumps.fj:181', requires='cmp'),
     # "SIGNED (two's complement): jumps to lt if a<b, eq if a==b, gt if a>b ... NOT modified ... correct over the whole range"
     S('hex.scmp', [N(), O('a', 'hex', 'r'), O('b', 'hex', 'r')] + LT_EQ_GT, lambda n, v, c, w: ({}, cmp3(signed(v['a'], n), signed(v['b'], n))),
-      'cond_jumps.fj:203', falls_through=False),
+      'cond_jumps.fj:203', requires='cmp', falls_through=False),
     # ---------------------------------------------------------------- hex/mul.fj
     # ".mul.add_carry_dst : res  +=  x * .mul.dst + .mul.add_carry_dst"   (all hex)
     S('hex.add_mul', [O('res', 'hex', 'rw', '1'), O('x', 'hex', 'r', '1'), hid('mul_dst', 'r', 4, 'mul_dst'),
-                      hid('mul_carry', 'rw', 4, 'mul_carry')], add_mul_scalar, 'mul.fj:4', **SCALAR),
+                      hid('mul_carry', 'rw', 4, 'mul_carry')], add_mul_scalar, 'mul.fj:4', requires='add', **SCALAR),
     # "res[n] += a[n] * b[1]"
     S('hex.add_mul', [N(), O('res', 'hex', 'rw'), O('a', 'hex', 'r'), O('b', 'hex', 'r', '1')],
-      lambda n, v, c, w: up(res=(v['res'] + v['a'] * v['b']) & H(n)), 'mul.fj:20', n_values=(1, 2, 3, 4, 6)),
-    S('hex.mul10', [N(), O('x', 'hex', 'rw')], lambda n, v, c, w: up(x=(v['x'] * 10) & H(n)), 'mul.fj:33'),
+      lambda n, v, c, w: up(res=(v['res'] + v['a'] * v['b']) & H(n)), 'mul.fj:20', requires='add', n_values=(1, 2, 3, 4, 6)),
+    S('hex.mul10', [N(), O('x', 'hex', 'rw')], lambda n, v, c, w: up(x=(v['x'] * 10) & H(n)), 'mul.fj:33', requires='add'),
     S('hex.mul', [N(), O('res', 'hex', 'w'), O('a', 'hex', 'r'), O('b', 'hex', 'r')], lambda n, v, c, w: up(res=(v['a'] * v['b']) & H(n)),
-      'mul.fj:49', n_values=(1, 2, 3, 4)),
+      'mul.fj:49', requires='add', n_values=(1, 2, 3, 4)),
     # ---------------------------------------------------------------- hex/div.fj
     # "q,a are hex[:n], while r,b are hex[:nb]. div0 is the bit-address this function will jump to in-case b is zero."
     S('hex.div', [N(), O('nb', 'const', values=nb_near_n), O('q', 'hex', 'w'), O('r', 'hex', 'w', 'nb'), O('a', 'hex', 'r'),
-                  O('b', 'hex', 'r', 'nb'), O('div0', 'label')], div_model, 'div.fj:4', n_values=(1, 2, 3, 4)),
+                  O('b', 'hex', 'r', 'nb'), O('div0', 'label')], div_model, 'div.fj:4', requires='sub,cmp', n_values=(1, 2, 3, 4)),
     S('hex.idiv', [N(), O('nb', 'const', values=nb_near_n), O('q', 'hex', 'w'), O('r', 'hex', 'w', 'nb'), O('a', 'hex', 'r'),
-                   O('b', 'hex', 'r', 'nb'), O('div0', 'label'), O('rem_opt', 'const', values=rem_opt_values)], idiv_model, 'div.fj:74',
+                   O('b', 'hex', 'r', 'nb'), O('div0', 'label'), O('rem_opt', 'const', values=rem_opt_values)], idiv_model, 'div.fj:74', requires='sub,cmp',
       n_values=(1, 2, 3, 4)),
 ]
